@@ -62,6 +62,10 @@ func zzDeviate(tag string, n int) int {
 }
 
 func zzHeader(h *eth.Header, want uint64) {
+	if zzMode == 1 && zzNode != nil {
+		zzNodeHeader(h, want)
+		return
+	}
 	if zzMode == 1 {
 		h.Number = eth.Uint64(want)
 		h.Hash = zzChainHash(want)
@@ -108,6 +112,11 @@ func zzTx(t *eth.Tx, idx uint64) {
 
 func zzBlockResult(b *eth.Block, want uint64) {
 	zzHeader(&b.Header, want)
+	if zzMode == 1 && zzNode != nil {
+		b.Txs = make(eth.Txs, 1)
+		zzNodeTx(&b.Txs[0])
+		return
+	}
 	ntx := 1 - zzDeviate("ntx", 2)
 	b.Txs = make(eth.Txs, ntx)
 	for i := range b.Txs {
@@ -184,6 +193,16 @@ func zzDo(c *Client, ctx context.Context, url string, dest, req any) error {
 			r.Result = make([]receiptResult, n)
 			for j := range r.Result {
 				x := &r.Result[j]
+				if zzMode == 1 && zzNode != nil {
+					n := zzNode
+					x.BlockNum, x.TxIdx, x.BlockHash = eth.Uint64(zzStart+uint64(i)), 0, n.BlockHash
+					x.TxHash, x.TxType, x.TxFrom, x.TxTo = n.TxHash, eth.Byte(n.TxType), n.TxFrom, n.TxTo
+					x.Status, x.GasUsed = eth.Byte(n.TxStatus), eth.Uint64(n.TxGasUsed)
+					x.EffectiveGasPrice = uint256.Int{n.TxEffGasPrice, 0, 0, 0}
+					x.ContractAddress = n.TxContractAddr
+					x.Logs = eth.Logs{{Idx: eth.Uint64(n.LogIdx), Address: n.LogAddr, Topics: []eth.Bytes{n.LogTopic0}, Data: n.LogData}}
+					continue
+				}
 				if zzMode == 1 {
 					x.BlockNum = eth.Uint64(zzStart + uint64(i))
 					x.TxIdx = eth.Uint64(j)
@@ -221,6 +240,12 @@ func zzDo(c *Client, ctx context.Context, url string, dest, req any) error {
 		l.Result = make([]logResult, n)
 		for j := range l.Result {
 			x := &l.Result[j]
+			if zzMode == 1 && zzNode != nil {
+				n := zzNode
+				x.Log = &eth.Log{Idx: eth.Uint64(n.LogIdx), Address: n.LogAddr, Topics: []eth.Bytes{n.LogTopic0}, Data: n.LogData}
+				x.BlockNum, x.TxIdx, x.BlockHash, x.TxHash = eth.Uint64(zzStart), 0, n.BlockHash, n.TxHash
+				continue
+			}
 			x.Log = &eth.Log{
 				Idx:     eth.Uint64(zzvrf.U64("log.logIndex")),
 				Address: zzvrf.Bytes("log.address", 20, 20),
@@ -245,6 +270,13 @@ func zzDo(c *Client, ctx context.Context, url string, dest, req any) error {
 		d.Result = make([]traceBlockResult, n)
 		for j := range d.Result {
 			x := &d.Result[j]
+			if zzMode == 1 && zzNode != nil {
+				n := zzNode
+				x.BlockNum, x.TxIdx, x.BlockHash, x.TxHash = zzStart+uint64(zzTraceCall), 0, n.BlockHash, n.TxHash
+				x.Action.From, x.Action.To, x.Action.CallType = n.TraceFrom, n.TraceTo, "call"
+				x.Action.Value = uint256.Int{n.TraceValue, 0, 0, 0}
+				continue
+			}
 			if zzMode == 1 {
 				x.BlockNum = zzStart + uint64(zzTraceCall)
 				x.TxIdx = 0
